@@ -19,7 +19,7 @@ RULE = ("Lists of 1..N sequences of length 0..M over ACGT, ACTG, ACUG (bit-packe
         "Exhaustive core: every list of up to 2 rows of length 0..4 (3 rows of length 0..3) over a two-letter sub-alphabet with every w <= 5; Hypothesis beyond. "
         "Oracle, per row, in plain Python: k-mer code = little-endian base-|A| number of the window's letters; KmerEncoding.to_string(code) and "
         "KmerEncoding.encode(text) are inverse; minimizer = minimum code in each window; match_string = [row[i:i+len(p)] == p]; motif score = sum "
-        "of matrix entries (1e-9, -inf exact); count_kmers = Counter of window texts. Every row yields exactly max(len(row) - w + 1, 0) values. "
+        "of matrix entries (1e-9, -inf exact); count_kmers = Counter of window texts, over all rows and per row (axis=-1, and count_encoded of the k-mers). Every row yields exactly max(len(row) - w + 1, 0) values. "
         "Non-trivial: >= 2 rows of which one is shorter than w and one at least w.")
 ASSUMPTIONS = [
     "The total number of letters is at least the window length (the sliding window view needs it); rows may individually be shorter.",
@@ -154,6 +154,19 @@ def check(case, stats=None):
                 got = {lab: int(c) for lab, c in zip(res.alphabet, np.asarray(res.counts).tolist()) if int(c)}
                 if got != dict(want):
                     return [Failure("C13:count_kmers", {"k": k, "rows": rows, "expected": dict(want), "actual": got})]
+                # per-row counting (axis=-1): row i holds exactly the counts of sequence i alone
+                from bionumpy.sequence.count_encoded import count_encoded
+                for how, per in (("count_kmers(axis=-1)", lambda: bnp.sequence.count_kmers(seqs, k, axis=-1)),
+                                 ("count_encoded(get_kmers)", lambda: count_encoded(bnp.sequence.get_kmers(_input(rows, enc, case), k)))):
+                    res = per()
+                    mat = np.asarray(res.counts)
+                    got_rows = [{lab: int(c) for lab, c in zip(res.alphabet, mat[i].tolist()) if int(c)} for i in range(len(rows))] if mat.ndim == 2 else None
+                    want_rows = [dict(Counter(windows(r, k))) for r in rows]
+                    if got_rows != want_rows:
+                        bad = next((i for i, (g, w_) in enumerate(zip(got_rows or [], want_rows)) if g != w_), None)
+                        return [Failure("C13:count_kmers-per-row", {"how": how, "k": k, "rows": rows, "row": bad,
+                                                                    "expected": want_rows[bad] if bad is not None else want_rows,
+                                                                    "actual": got_rows[bad] if bad is not None and got_rows else repr(mat.shape)})]
         elif fn == "match_string":
             p = case["pattern"]
             if case.get("alpha"):
